@@ -1167,7 +1167,10 @@ class ExchangeInstruction(Instruction):
         if isinstance(op1, IMemOperand) and isinstance(op2, IMemOperand):
             pre_key = (op1.mode, op2.mode)
             pre_byte = REVERSE_PRE_TABLE.get(pre_key)
-            if pre_byte is None:
+            if pre_byte is None and pre_key != (
+                AddressingMode.BP_N,
+                AddressingMode.BP_N,
+            ):
                 raise ValueError(
                     f"Invalid addressing mode combination for {self.name()}: {op1.mode.value} and {op2.mode.value}"
                 )
